@@ -174,12 +174,19 @@ def expand_euler(g, cutoff):
     pas = np.asarray(inst._get_passive_block(NC, cfg))
     act = np.asarray(inst._get_active_block(NC, cfg))
     S = np.block([[pas, act], [act.conj(), pas.conj()]])
-    u_last, sq, u_first = euler(S, NC)
+    try:
+        u_last, sq, u_first = euler(S, NC)
+    except Exception as e:  # the bound cannot be computed; the simulators are still run
+        raise BoundUnavailable(repr(e))
     out = [("U", g["modes"], np.asarray(u_first))]
     for m, r in zip(g["modes"], np.asarray(sq)):
         out.append(("S", [m], float(np.real(r))))
     out.append(("U", g["modes"], np.asarray(u_last)))
     return out
+
+
+class BoundUnavailable(Exception):
+    pass
 
 
 def gaussian_leaks(desc, cutoff, hbar):
@@ -230,6 +237,13 @@ def scale_desc(desc, factor):
 
 
 def choose_cutoff(desc, hbar, target=2e-3):
+    try:
+        return _choose_cutoff(desc, hbar, target)
+    except BoundUnavailable:
+        return desc, None, None
+
+
+def _choose_cutoff(desc, hbar, target):
     for _ in range(6):
         for c in (4, 5, 6, 7, 8, 9, 10):
             if desc["d"] == 4 and c > 8:
@@ -246,7 +260,11 @@ def prop_active(case, ctx):
     hbar = case["hbar"]
     if "cutoff" in case:  # replay of a stored case
         desc, c = case, case["cutoff"]
-        eps = sum(math.sqrt(x) for x in gaussian_leaks(desc, c, hbar))
+        try:
+            eps = sum(math.sqrt(x) for x in gaussian_leaks(desc, c, hbar))
+        except BoundUnavailable:
+            ctx.count("A_no_cutoff_found")
+            return
     else:
         desc, c, eps = choose_cutoff(case, hbar)
         if c is None:
@@ -390,7 +408,11 @@ def prop_att_gauss(case, ctx):
     base = {k: case[k] for k in ("d", "prep", "gates", "hbar")}
     if "cutoff" in case:
         desc, c = base, case["cutoff"]
-        eps = sum(math.sqrt(x) for x in gaussian_leaks(desc, c, hbar))
+        try:
+            eps = sum(math.sqrt(x) for x in gaussian_leaks(desc, c, hbar))
+        except BoundUnavailable:
+            ctx.count("A_no_cutoff_found")
+            return
     else:
         desc, c, eps = choose_cutoff(base, hbar)
         if c is None:
